@@ -32,7 +32,15 @@ def cb(item, *sketches, logdir=None, die_item=None, tag=None, expect=None, table
         w = fakemp.current_worker(sched)
         counts[w] = counts.get(w, 0) + 1
         sched.yield_point()      # processing takes time: other processes may run between dequeue and update
-        if die_at is not None and die_at == (w, counts[w]):
+        if die_at is not None and die_at[:2] == (w, counts[w]):
+            if len(die_at) > 2 and die_at[2] == "late":
+                # a slow item: the worker dies only after every other worker has exited and the
+                # monitor has had several more passes
+                me = sched.me()
+                others = [t for t in sched.threads if t.proc is not None and t.proc.worker_id is not None and t is not me]
+                sched.yield_point(lambda: all(t.finished or t.killed for t in others))
+                for _ in range(6):
+                    sched.yield_point()
             raise fakemp.WorkerDeath("worker %s dies on its item #%d" % (w, counts[w]))
     else:
         if logdir:
